@@ -56,6 +56,17 @@ from .solve import _cli_check
 
 
 def discharge(ob: Obligation, tier: str):
+    """Discharge with the tier's budget; a property obligation left undecided by the quick budget gets
+    one more attempt with the thorough budget before it is reported as undecided."""
+    _discharge(ob, tier)
+    if ob.status == "unknown" and ob.kind == "property" and tier == "quick" and not str(ob.backend).startswith("DISAGREE"):
+        first = ob.ms
+        _discharge(ob, "thorough")
+        ob.ms += first
+        ob.backend = str(ob.backend) + " [after retry with the thorough budget]"
+
+
+def _discharge(ob: Obligation, tier: str):
     """Primary: z3 5.1.0 (API).  Every verdict is cross-checked on the SMT-LIB dump by /usr/bin/z3
     4.8.12 (and cvc5 where needed): z3 5.1.0's sequence rewriter is known to be unsound on some
     inputs (seq.nth over nested concatenations), so neither an `unsat` nor a `sat` of it is
